@@ -51,7 +51,12 @@ def cases(draw, tier):
                              "la": draw(st.integers(540, 700)), "extra": draw(st.integers(0, 3))},
                 "seqs": None, "cfg": {"type": draw(gen.types_for(k)), "threads": draw(gen.threads), "gpo": -1.0, "gpe": -1.0, "tgpe": -1.0},
                 "entry": draw(st.sampled_from(["arr", "file"])), "shape": shape}
-    if shape == "family":
+    if draw(st.integers(0, 9)) == 0:
+        # long sequences: beyond the serial/parallel Hirschberg switch (500) and the distance kernel's 1024-symbol cap
+        L = draw(st.sampled_from([499, 500, 501, 640, 1023, 1024, 1025, 1100]))
+        base = gen.expand_family(draw(st.integers(0, 2 ** 32 - 1)), alpha, draw(st.integers(2, 4)), L, 0.15, 0.02, 0.0)
+        shape = "long"
+    elif shape == "family":
         n = draw(st.integers(1, maxn))
         L = draw(st.integers(4, 120))
         base = gen.expand_family(draw(st.integers(0, 2 ** 32 - 1)), alpha, n, L, draw(st.sampled_from([0.05, 0.15, 0.4])),
